@@ -327,6 +327,12 @@ def replay_dtype(model, seed, inst):
 def replay_file(path):
     import json
     rec = json.load(open(path))
-    r = replay(rec.get("model") or {}, rec.get("seed", 0), rec["instance"])
+    ob = rec.get("obligation", "")
+    if "adopts-scale-of-quantized-input" in ob:
+        r = replay_adopt(rec.get("model") or {}, rec.get("seed", 0), rec["instance"])
+    elif "scale-keeps-the-dtype" in ob:
+        r = replay_dtype(rec.get("model") or {}, rec.get("seed", 0), rec["instance"])
+    else:
+        r = replay(rec.get("model") or {}, rec.get("seed", 0), rec["instance"])
     print(json.dumps(r, indent=1, default=str))
     return 1 if r else 0
